@@ -1,12 +1,18 @@
 package props
 
 import (
+	"context"
+	"crypto/tls"
 	"encoding/json"
+	"errors"
 	"fmt"
+	"github.com/c2FmZQ/ech"
 	"os"
 	"os/exec"
 	"path/filepath"
+	"runtime"
 	"strings"
+	"time"
 
 	"verifharness/core"
 )
@@ -52,7 +58,53 @@ func c18Root() string {
 
 func fileExists(p string) bool { _, err := os.Stat(p); return err == nil }
 
+// c18EarlyExits calls Dial in ways that make it give up before any attempt (a PublicName no ECH config can
+// carry) and looks for goroutines of Dial that are still around afterwards.
+func c18EarlyExits(emit func(core.Case)) {
+	dialGoroutines := func() int {
+		buf := make([]byte, 1<<20)
+		n := runtime.Stack(buf, true)
+		cnt := 0
+		for _, g := range strings.Split(string(buf[:n]), "\n\n") {
+			if strings.Contains(g, "ech.(*Dialer[") {
+				cnt++
+			}
+		}
+		return cnt
+	}
+	for _, kind := range []string{"public-name-too-long", "public-name-ok"} {
+		d := &ech.Dialer[*fakeTLS]{MaxConcurrency: 2, ConcurrencyDelay: time.Millisecond, Timeout: time.Second}
+		d.DialFunc = func(ctx context.Context, network, a string, tc *tls.Config) (*fakeTLS, error) {
+			return nil, errors.New("scripted dial error")
+		}
+		addr := "10.1.2.3:443,10.1.2.4:443,10.1.2.5:443"
+		switch kind {
+		case "public-name-too-long":
+			d.PublicName = strings.Repeat("a", 300)
+		case "public-name-ok":
+			d.PublicName = "public.example"
+		}
+		before := dialGoroutines()
+		errs := 0
+		for i := 0; i < 10; i++ {
+			if _, err := d.Dial(context.Background(), "tcp", addr, nil); err != nil {
+				errs++
+			}
+		}
+		time.Sleep(30 * time.Millisecond)
+		after := dialGoroutines()
+		w := ""
+		if after > before {
+			w = fmt.Sprintf("%d calls of Dial (%s) have returned (%d with an error), %d goroutines of Dial are still there", 10, kind, errs, after-before)
+		}
+		emit(core.Case{Name: "early-exit/" + kind, Stream: "early-exit", Key: "early-exit/" + kind, Sig: "early-exit/" + kind,
+			Ops:    []core.Op{{Kind: 'X', Note: "no goroutine of Dial outlives the call, whichever way the call ends", Want: w}},
+			Sample: map[string]any{"kind": kind, "errors": errs}})
+	}
+}
+
 func genC18(env *core.Env, emit func(core.Case)) {
+	c18EarlyExits(emit)
 	root := c18Root()
 	out := filepath.Join(root, ".build", fmt.Sprintf("c18traces-%d.json", os.Getpid()))
 	os.MkdirAll(filepath.Dir(out), 0o755)
